@@ -87,6 +87,13 @@ CHECKS["C16"] = dict(
     ref="4/C16",
 )
 
+CHECKS["C15"] = dict(
+    technique="recording translations catalog (logs every gettext/ngettext/pgettext/npgettext call of real renders) matched against extract_from_template output using unique message ids and the emitter's own line map",
+    text="Exploration with a bounded-exhaustive one-site family: ~1.5e5 (quick) catalog lookups of real renders (translate/plural blocks and t/gettext/ngettext/pgettext/npgettext filters in every host construct, comments of all kinds, multi-line statements, counts {0,1,2,1.5,'3','abc',true}) are each attributed to their call site and must be matched by an extracted message of the same function family on the line the emitter placed it; comment attachment rules and no-raise on every parsing template (incl. empty) are checked.",
+    note="Trusted: the generator's position map (lines are LF/CRLF based); lookups of computed strings are unobliged (only 'extraction does not fail').",
+    ref="4/C15",
+)
+
 NOT_YET = {}
 
 def main():
